@@ -65,8 +65,7 @@ class get_interp_name:
     returns = Str
     ghost = {"$B": "self.stream.B", "$o": "self.header.p_offset"}
     ensures = ["result == decode_utf8($B[$o : cstr_end($B, $o)])"]
-    raises = {"ELFParseError": "$o < 2**63 and not exists(lambda j: $B[j] == 0, $o, len($B))",
-              "OverflowError": "$o >= 2**63"}
+    raises = {"ELFParseError": "not exists(lambda j: $B[j] == 0, $o, len($B))"}
     may_raise = ["UnicodeDecodeError"]
 
 
@@ -129,6 +128,4 @@ class section_init:
                "self._decompressed_size == ($ch.ch_size if $c else header.sh_size)",
                "self._decompressed_align == ($ch.ch_addralign if $c else header.sh_addralign)",
                "(not $c) or self._compression_type == $ch.ch_type"]
-    raises = {"ELFParseError": "$c and header.sh_offset < 2**63 and"
-                               " header.sh_offset + SZ('Elf_Chdr', elffile.elfclass) > len(elffile.stream.B)",
-              "OverflowError": "$c and header.sh_offset >= 2**63"}
+    raises = {"ELFParseError": "$c and header.sh_offset + SZ('Elf_Chdr', elffile.elfclass) > len(elffile.stream.B)"}
